@@ -98,6 +98,23 @@ def run(ctx):
             add("c11", "%s %s%s (%s)" % (body, pfx, num, name), wall, off, ["en"], "%s%s (..)" % (pfx, num))
             cases[-1]["pre"] = [{"s": "%s %s" % (body, name), "kw": {"languages": ["en"]}, "settings": st0}]
         add("naive", body, wall, NAIVE, ["en"], "")
+    # ---- a clock time alone with a zone, under every PREFER_DATES_FROM and reference times on both sides of it: the date
+    # is the preference's business (C09), the offset and the written time of day are this property's
+    for off in (offsets if not ctx.quick() else rng.sample(offsets, 8) + [-18000, 19800]):
+        sps = [sp for sp in spellings(off)]
+        for sp in (sps if not ctx.quick() else rng.sample(sps, 2)):
+            for hh, mi_ in ((3, 30), (16, 0), (23, 59), (0, 5)):
+                for pdf in ("past", "future", "current_period"):
+                    body = rng.choice(["%d:%02d" % (hh, mi_), "%02d:%02d:00" % (hh, mi_), "%d:%02d %s" % (hh % 12 or 12, mi_, "am" if hh < 12 else "pm")])
+                    add("c11", body + " " + sp, [2021, 6, 15, hh, mi_, 0, 0], off, ["en"], sp)
+                    cases[-1]["timeonly"] = True
+                    cases[-1]["settings"] = {"RELATIVE_BASE": [2021, 6, 15, rng.choice([0, 6, 12, 18, 23]), 30, 0, 0], "PREFER_DATES_FROM": pdf}
+    for name, off in (abbrs if not ctx.quick() else rng.sample(abbrs, 25)):
+        hh, mi_ = rng.choice([(3, 30), (16, 0), (23, 59), (0, 5), (12, 0)])
+        for pdf in ("past", "future"):
+            add("c11", "%d:%02d %s" % (hh, mi_, name), [2021, 6, 15, hh, mi_, 0, 0], off, ["en"], name)
+            cases[-1]["timeonly"] = True
+            cases[-1]["settings"] = {"RELATIVE_BASE": [2021, 6, 15, rng.choice([0, 12, 23]), 30, 0, 0], "PREFER_DATES_FROM": pdf}
     for body, wall in BODIES:
         for langs in (["en"], None):
             add("naive", body, wall, NAIVE, langs, "")
@@ -111,7 +128,7 @@ def run(ctx):
     records = []
     for i, (c, r) in enumerate(zip(cases, results)):
         records.append({"kind": c["kind"], "tid": i, "expoff": c["expoff"], "wall": c["wall"], "out": r["out"],
-                        "off": NAIVE if r["off"] == "naive" else r["off"], "pk": bool(r.get("pk", True)), "exc": r["exc"], "moffs": []})
+                        "off": NAIVE if r["off"] == "naive" else r["off"], "pk": bool(r.get("pk", True)), "exc": r["exc"], "moffs": [], "timeonly": bool(c.get("timeonly"))})
     seen = set()
     shadow_index = {}
     for i, c in enumerate(cases):
@@ -120,7 +137,7 @@ def run(ctx):
             tid = len(cases) + len(shadow_index)
             shadow_index[tid] = i
             records.append({"kind": "shadow", "tid": tid, "expoff": c["expoff"], "moffs": [rows[j][3] for j in matches[c["s"]]],
-                            "wall": [], "out": [], "off": 0, "pk": True, "exc": ""})
+                            "wall": [], "out": [], "off": 0, "pk": True, "exc": "", "timeonly": False})
     tuples, gen = core.validate_traces(ctx, "T_C11", "SPECIFICATION TSpec\nPOSTCONDITION Consumed\nCHECK_DEADLOCK FALSE\n", records)
     for t in tuples["REJECT"]:
         _, tid, kind, verdict, exp = t[:5]
